@@ -115,6 +115,8 @@ pub fn layers(with_invalid: bool) -> Vec<Layer> {
     };
     let mut v = vec![l1, l2, l3, l4];
     if with_invalid {
+        // a rename that is refused for another reason than its name
+        v[1].alphabet.push(COp::UpdateTopic(n(1), n(1), st("www"), u64::MAX));
         v[3].alphabet.push(COp::DeleteUser(n(1)));
         v[3].alphabet.push(COp::SetPerms(n(1), 0));
         v[3].alphabet.push(COp::ChangePassword(n(2), st("wrong"), st("pw2")));
@@ -494,6 +496,7 @@ impl Model {
                     Expect::Either
                 }
             }
+            COp::UpdateTopic(_, _, _, exp) if *exp == u64::MAX => Expect::Refuse("a size limit below the segment size is not allowed".into()),
             COp::UpdateTopic(stt, t, name, _) => {
                 let Some(sid) = self.sid(stt) else { return missing("stream") };
                 let Some(tid) = self.tid(sid, t) else { return missing("topic") };
